@@ -11,6 +11,8 @@ for mp in sorted(glob.glob(os.path.join(root, "*", "meta.json"))):
     own_hit = [c for c in caught if c.startswith(own + ":")]
     others = sorted({c.split(":")[0] for c in caught if not c.startswith(own + ":")})
     base = "" if m.get("applies_to_head", True) else " (patch applies to %s; a later fix: commit rewrote the same lines)" % m.get("applies_to")
+    if m.get("manifests_at_head") is False:
+        base += " (no longer observable on HEAD: fix 05bcbfd - library singletons pickled by reference - removed the difference between a pickle clone and its original that this change needed; run it on eb1a7a5)"
     own_txt = ", ".join(own_hit) or ("not by %s - the change breaks a neighbouring property (DESIGN 7.2): caught by %s" % (own, ", ".join(c for c in caught)) if others else "**missed**")
     rows.append((name, own, m.get("summary", "").replace("|", "/") + base, m.get("needs", "").replace("|", "/"), own_txt, ", ".join(others) or "-", m.get("note", "")))
 with open(os.path.join(root, "README.md"), "w") as f:
